@@ -67,6 +67,9 @@ def replay_file(path: str, scenarios: dict, stmt_for=None) -> int:
     stmt = None
     if d.get("stmt"):
         stmt = stmt_for(d) if stmt_for else stmt_mask()
+    if stmt is not None:
+        # the recorded trace is that of a warm process (see explorer.explore): warm this one up first
+        explorer.run_once(scn.scenario, scn.oracle, d["params"], [], stmt_mask=stmt, horizon=d.get("horizon", 20000))
     res = explorer.replay(scn, d["params"], [tuple(c) for c in d["choices"]], stmt_mask=stmt, horizon=d.get("horizon", 20000))
     for ev in res.log or []:
         print(" ", ev)
